@@ -38,6 +38,7 @@ macro_rules! config {
         fn with_capacity(n: usize) -> Option<V<Self>> { Some(any_vec::AnyVec::with_capacity_in::<$e>(n, Self::mem_builder())) }
     };
     (@cap rawparts, $e:ty) => {
+        const RAWPARTS: bool = true;
         fn raw_ops(w: &mut World<Self>, a: &Value, out: &mut ActOut) -> bool { raw_ops_impl::<Self>(w, a, out) }
     };
     (@cap cloneable, $e:ty) => {
@@ -405,6 +406,47 @@ fn random_run<C: Config>(out: &str, seed: u64, steps: usize, maxlen: usize, nvec
                     }
                 }
                 else if r < 92 && !world.ext.is_empty() { json!({"op": "ext_drop", "v": v}) }
+                else if r < 96 {
+                    // the rest of the surface, each now and then
+                    let others: Vec<usize> = (0..nvecs).filter(|w| *w != x && world.vs[*w].h.is_none() && world.vs[*w].kept.is_empty()).collect();
+                    let cap = world.v(x).capacity();
+                    match rng.below(9) {
+                        0 if len > 0 => {
+                            let side = rng.pick(&["first", "second"]);
+                            if !others.is_empty() && world.v(others[0]).len() > 0 && rng.chance(40) {
+                                let wv = others[rng.below(others.len())];
+                                let wl = world.v(wv).len();
+                                if wl > 0 { json!({"op": "swap", "v": v, "i": rng.below(len), "with": "elem", "to": VNAMES[wv], "j": rng.below(wl), "side": side}) }
+                                else { json!({"op": "get", "v": v, "i": 0, "kind": "get"}) }
+                            } else if !world.ext.is_empty() && rng.chance(40) { json!({"op": "swap", "v": v, "i": rng.below(len), "with": "raw", "to": "", "j": 0, "side": side}) }
+                            else if world.ext.len() < 32 { json!({"op": "swap", "v": v, "i": rng.below(len), "with": rng.pick(&["wrapper", "typed"]), "to": "", "j": 0, "side": side}) }
+                            else { json!({"op": "get", "v": v, "i": 0, "kind": "get"}) }
+                        }
+                        1 if cap > len && cap < 1_000_000 => json!({"op": "spare_write", "v": v, "k": rng.below((cap - len).min(3) + 1), "via": rng.pick(&["bytes", "typed"])}),
+                        2 if C::CLONEABLE && !others.is_empty() && rng.chance(30) => {
+                            let wv = others[rng.below(others.len())];
+                            if !fixed || len as i64 <= fcap { json!({"op": "clone_vec", "v": v, "to": VNAMES[wv]}) } else { json!({"op": "debug", "v": v}) }
+                        }
+                        3 if C::CLONEABLE && len > 0 => {
+                            let n = rng.below(3);
+                            let sink = if others.is_empty() || rng.chance(30) { if world.ext.len() + n <= 32 { json!({"k": "ext", "to": "", "i": 0, "s": 0, "e": 0}) } else { json!({"k": "ext", "to": "", "i": 0, "s": 0, "e": 0}) } }
+                                else {
+                                    let wv = others[rng.below(others.len())];
+                                    let wl = world.v(wv).len();
+                                    if fixed && (wl + n) as i64 > fcap { json!({"k": "ext", "to": "", "i": 0, "s": 0, "e": 0}) }
+                                    else if rng.chance(50) { json!({"k": "push", "to": VNAMES[wv], "i": 0, "s": 0, "e": 0}) } else { json!({"k": "insert", "to": VNAMES[wv], "i": rng.below(wl + 1), "s": 0, "e": 0}) }
+                                };
+                            let n = if sink["k"] == "ext" && world.ext.len() + n > 32 { 0 } else { n };
+                            json!({"op": "lazy", "v": v, "kind": "elem", "i": rng.below(len), "depth": 1 + rng.below(3), "n": n, "sink": sink})
+                        }
+                        4 if C::CLONEABLE && len > 0 => json!({"op": "fn_ptrs", "v": v, "i": rng.below(len)}),
+                        5 if C::RAWPARTS => json!({"op": "raw_roundtrip", "v": v, "clone": rng.chance(50)}),
+                        6 => json!({"op": "ce_probe", "v": v, "via": rng.pick(&["same", "stack", "stackn", "stackn1", "empty", "fence"])}),
+                        7 if C::E::SZ == 8 => json!({"op": "push_wrong", "v": v, "src": rng.pick(&["wrapper", "raw"]), "ty": rng.pick(&["X8", "Y8", "Z16"])}),
+                        8 if len > 0 => json!({"op": "downcast_q", "v": v, "what": rng.pick(&["vec_ref", "vec_mut", "elem_ref", "elem_mut"]), "i": rng.below(len), "ty": rng.pick(&["real", "X8", "u64", "Z16"])}),
+                        _ => json!({"op": "debug", "v": v}),
+                    }
+                }
                 else if r < 93 && len > 0 && rng.chance(12) { json!({"op": "clear", "v": v, "path": rng.pick(&["erased", "typed"])}) }
                 else if len > 0 { json!({"op": "get", "v": v, "i": rng.below(len), "kind": "get"}) }
                 else { json!({"op": "push", "v": v, "src": src}) }
